@@ -43,7 +43,18 @@ pub enum Supervised {
 fn describe(st: &std::process::ExitStatus) -> String {
     match st.signal() {
         Some(s) => format!("signal-{s}"),
+        None if st.code() == Some(crate::par::STALL_EXIT) => "stall".to_string(),
         None => format!("exit-{}", st.code().unwrap_or(-1)),
+    }
+}
+
+/// Signature of a run that took the process down: a death is `abort:<how>`, a run that never
+/// ends (spins or blocks inside a library call) is `hang:no-result`.
+fn death_signature(how: &str) -> String {
+    if how == "stall" {
+        "hang:no-result".to_string()
+    } else {
+        format!("abort:{how}")
     }
 }
 
@@ -57,7 +68,33 @@ fn spawn_self(extra_args: &[&str], envs: &[(&str, &str)], quiet: bool) -> std::p
     if quiet {
         cmd.stdout(std::process::Stdio::null()).stderr(std::process::Stdio::null());
     }
-    cmd.status().unwrap_or_else(|e| crate::harness_error(&format!("spawn self: {e}")))
+    if !std::env::args().any(|a| a == "--replay") {
+        // a batch watches its own workers (par::watchdog) and ends with STALL_EXIT
+        return cmd.status().unwrap_or_else(|e| crate::harness_error(&format!("spawn self: {e}")));
+    }
+    // a replay executes one case without the batch runner: watch it from here
+    let mut child = cmd.spawn().unwrap_or_else(|e| crate::harness_error(&format!("spawn self: {e}")));
+    wait_watched(&mut child)
+}
+
+/// Wait for a child that executes a single case; a stalled one is killed and reported with
+/// the exit status a stalled batch has (STALL_EXIT).
+fn wait_watched(child: &mut std::process::Child) -> std::process::ExitStatus {
+    let mut watch = Watch::new(child.id());
+    loop {
+        match child.try_wait() {
+            Ok(Some(st)) => return st,
+            Ok(None) => {
+                if watch.stalled(child.id(), crate::par::STALL_LIMIT_S) {
+                    let _ = child.kill();
+                    let _ = child.wait();
+                    return std::process::ExitStatus::from_raw(crate::par::STALL_EXIT << 8);
+                }
+                std::thread::sleep(std::time::Duration::from_millis(20));
+            }
+            Err(e) => crate::harness_error(&format!("wait: {e}")),
+        }
+    }
 }
 
 /// `emit_replay(run index, signature)` must write a replay file for that run *without executing
@@ -76,16 +113,16 @@ pub fn supervise(prop: &str, args: &crate::Args, emit_replay: impl Fn(u64, &str)
     if let Some(path) = args.value("--replay") {
         let v = crate::read_json(path);
         let want = v["signature"].as_str().unwrap_or("");
-        let got = format!("abort:{how}");
+        let got = death_signature(&how);
         if want == got {
-            println!("replayed: the process died ({how}) while executing the recorded case");
+            println!("replayed: the process {} while executing the recorded case", if how == "stall" { "did not finish (stalled)".to_string() } else { format!("died ({how})") });
             println!("VIOLATION property={prop} replay={path}");
             return Supervised::Done(1);
         }
         println!("HARNESS-ERROR: replay process died ({how}); recorded signature {want}");
         return Supervised::Done(2);
     }
-    println!("note: the batch process died ({how}); re-running single-threaded with run announcements to find the run");
+    println!("note: the batch process {}; re-running single-threaded with run announcements to find the run", if how == "stall" { "stalled in one block of runs".to_string() } else { format!("died ({how})") });
     let trace = format!("{}/replays/.trace-{}-{}", crate::verif_dir(), prop, std::process::id());
     let _ = std::fs::create_dir_all(format!("{}/replays", crate::verif_dir()));
     let _ = std::fs::remove_file(&trace);
@@ -98,22 +135,93 @@ pub fn supervise(prop: &str, args: &crate::Args, emit_replay: impl Fn(u64, &str)
     }
     let idx = idx - 1;
     let how2 = describe(&st2);
-    let sig = format!("abort:{how2}");
+    let sig = death_signature(&how2);
     let path = emit_replay(idx, &sig);
     // confirm in a fresh process
     let exe = std::env::current_exe().unwrap_or_else(|e| crate::harness_error(&format!("current_exe: {e}")));
-    let st3 = std::process::Command::new(exe)
+    let mut c3 = std::process::Command::new(exe)
         .args([prop, "--replay", &path])
         .env("VERIF_INPROC", "1")
         .stdout(std::process::Stdio::null())
         .stderr(std::process::Stdio::null())
-        .status()
+        .spawn()
         .unwrap_or_else(|e| crate::harness_error(&format!("spawn replay: {e}")));
+    let st3 = wait_watched(&mut c3);
     if describe(&st3) != how2 {
         println!("HARNESS-ERROR: run {idx} was announced when the process died ({how2}) but its replay ends with {}", describe(&st3));
         return Supervised::Done(2);
     }
-    println!("violation: signature={sig} first_run={idx} :: the process died ({how2}) inside a library call of this run (memory unsafety, stack overflow or abort)");
+    if how2 == "stall" {
+        println!("violation: signature={sig} first_run={idx} :: a library call of this run does not return (more than {} s of CPU time, or blocked for as long)", crate::par::STALL_LIMIT_S);
+    } else {
+        println!("violation: signature={sig} first_run={idx} :: the process died ({how2}) inside a library call of this run (memory unsafety, stack overflow or abort)");
+    }
     println!("VIOLATION property={prop} replay={path}");
     Supervised::Done(1)
 }
+
+// ---------------------------------------------------------------- progress watch (stalls)
+
+/// CPU time (user + system, all threads) a process has used, from /proc/<pid>/stat. The
+/// backstop counts this, not wall-clock time, so that a loaded machine cannot make a healthy
+/// run look stalled; wall-clock time only bounds it from far above (a run that neither
+/// finishes nor burns CPU).
+pub fn cpu_seconds(pid: u32) -> Option<f64> {
+    let s = std::fs::read_to_string(format!("/proc/{pid}/stat")).ok()?;
+    let rest = &s[s.rfind(')')? + 1..];
+    let f: Vec<&str> = rest.split_whitespace().collect();
+    // after the command: state is field 0, utime field 11, stime field 12
+    let ut: f64 = f.get(11)?.parse().ok()?;
+    let st: f64 = f.get(12)?.parse().ok()?;
+    Some((ut + st) / 100.0)
+}
+
+const WALL_FACTOR: u64 = 10;
+
+/// True when no thread of the process is runnable or in uninterruptible wait: together with a
+/// CPU counter that stands still this is a blocked process (a self-deadlock), as opposed to one
+/// that is merely not being given a core.
+pub fn all_threads_sleeping(pid: u32) -> bool {
+    let Ok(rd) = std::fs::read_dir(format!("/proc/{pid}/task")) else { return false };
+    let mut seen = false;
+    for e in rd.flatten() {
+        let Ok(s) = std::fs::read_to_string(e.path().join("stat")) else { continue };
+        let Some(p) = s.rfind(')') else { continue };
+        match s[p + 1..].split_whitespace().next() {
+            Some("S") => seen = true,
+            _ => return false,
+        }
+    }
+    seen
+}
+
+/// Progress watch for one child on one run: stalled when it has burnt more than `limit` CPU
+/// seconds on it, or has been blocked (all threads asleep, CPU counter unchanged) for `limit`
+/// seconds, or, as an outer bound, after WALL_FACTOR x `limit` seconds of wall-clock time.
+pub struct Watch {
+    since: std::time::Instant,
+    cpu_at_start: f64,
+    cpu_last: f64,
+    cpu_last_at: std::time::Instant,
+}
+
+impl Watch {
+    pub fn new(pid: u32) -> Watch {
+        let c = cpu_seconds(pid).unwrap_or(0.0);
+        let now = std::time::Instant::now();
+        Watch { since: now, cpu_at_start: c, cpu_last: c, cpu_last_at: now }
+    }
+    pub fn stalled(&mut self, pid: u32, limit: u64) -> bool {
+        let wall = self.since.elapsed().as_secs();
+        if wall <= limit {
+            return false;
+        }
+        let Some(c) = cpu_seconds(pid) else { return true };
+        if c != self.cpu_last {
+            self.cpu_last = c;
+            self.cpu_last_at = std::time::Instant::now();
+        }
+        c - self.cpu_at_start > limit as f64 || (self.cpu_last_at.elapsed().as_secs() > limit && all_threads_sleeping(pid)) || wall > limit * WALL_FACTOR
+    }
+}
+
